@@ -34,16 +34,21 @@ RECURSIVE DescSeq(_)
 DescSeq(S) == IF S = {} THEN <<>> ELSE LET m == Max(S) IN <<m>> \o DescSeq(S \ {m})
 NbrIdx(gr, s) == DescSeq({i \in DOMAIN gr.es : gr.es[i].s = s})
 
+(* A symbol's IDENTITY is the text of its label (src/grapheme.rs chars), its DENOTATION the field u.  In plain runs  *)
+(* the two coincide; under (?i) and class conversion different labels may denote the same sets (s / long s, final / *)
+(* non-final sigma, an upper-case letter the engine cannot fold), and the harness then records the label as k.      *)
+Val(sym) == IF "k" \in DOMAIN sym THEN <<sym.k>> ELSE sym.u
+WithK(r, sym) == IF "k" \in DOMAIN sym THEN [u |-> r.u, lo |-> r.lo, hi |-> r.hi, nest |-> r.nest, k |-> sym.k] ELSE r
 (* find_next_state: returns [found, gr, d] *)
 RECURSIVE FindNext(_, _, _, _)
 FindNext(gr, idxs, sym, dev) ==
   IF idxs = <<>> THEN [found |-> FALSE, gr |-> gr, d |-> 0]
   ELSE LET i == Head(idxs)
            e == gr.es[i] IN
-       IF e.sym.u # sym.u THEN FindNext(gr, Tail(idxs), sym, dev)
+       IF Val(e.sym) # Val(sym) THEN FindNext(gr, Tail(idxs), sym, dev)
        ELSE IF dev.widen /\ e.sym.hi = sym.hi - 1
-            THEN LET w == [u |-> sym.u, lo |-> MinOf(e.sym.lo, sym.lo), hi |-> MaxOf(e.sym.hi, sym.hi),
-                           nest |-> <<>>]
+            THEN LET w == WithK([u |-> sym.u, lo |-> MinOf(e.sym.lo, sym.lo), hi |-> MaxOf(e.sym.hi, sym.hi),
+                                 nest |-> <<>>], sym)
                  IN [found |-> TRUE, gr |-> [gr EXCEPT !.es[i].sym = w], d |-> e.d]
             ELSE IF e.sym.hi = sym.hi /\ (dev.widen \/ e.sym.lo = sym.lo)
                  THEN [found |-> TRUE, gr |-> gr, d |-> e.d]
@@ -181,7 +186,7 @@ SymLess(x, y) == IF SymKey(x) # SymKey(y) THEN LexLess(SymKey(x), SymKey(y))
                  ELSE IF x.lo # y.lo THEN x.lo < y.lo ELSE x.hi < y.hi
 AlphaSeq(gr) == SortSeq(SetToSeq(gr.alpha), SymLess)
 
-LabelMatch(e, lab) == e.u = lab.u /\ (e.hi = lab.hi \/ e.lo = lab.lo)
+LabelMatch(e, lab) == Val(e) = Val(lab) /\ (e.hi = lab.hi \/ e.lo = lab.lo)
 Parents(gr, A, lab) ==
   {gr.es[i].s : i \in {j \in DOMAIN gr.es : gr.es[j].d \in A /\ LabelMatch(gr.es[j].sym, lab)}}
 
